@@ -304,6 +304,36 @@ def reader_handle(ctx, col):
                 and any(isinstance(a, ast.Constant) and a.value == "newline" for a in ast.walk(c)):
             col.bad("R-HANDLE", en.qualname, en.loc(c), "universal-newline text mode",
                     f"`{norm_src(c)[:80]}` sets a `newline` option for open(): line terminators are no longer translated", stmt="h:newline-kw", definite=True)
+    # decoding is strict: undecodable bytes raise (and parse_swc turns that into its ValueError); errors='replace' / 'ignore' swallow them
+    fr = repo.get_class("swcgeom.utils.file.FileReader")
+    lenient = ("replace", "ignore", "surrogateescape", "backslashreplace", "xmlcharrefreplace", "namereplace", "surrogatepass")
+    defaults = {}
+    for m_ in fr.methods.values():
+        if m_.is_lambda:
+            continue
+        a_ = m_.node.args
+        names_ = [x.arg for x in a_.posonlyargs + a_.args]
+        for nm_, dv_ in zip(names_[len(names_) - len(a_.defaults):], a_.defaults):
+            if isinstance(dv_, ast.Constant) and isinstance(dv_.value, str):
+                defaults[nm_] = dv_.value
+        for nm_, dv_ in zip([x.arg for x in a_.kwonlyargs], a_.kw_defaults):
+            if isinstance(dv_, ast.Constant) and isinstance(dv_.value, str):
+                defaults[nm_] = dv_.value
+    for m_ in fr.methods.values():
+        for c in own_nodes(m_):
+            if isinstance(c, ast.Call) and (dotted(c.func) or "").rsplit(".", 1)[-1] in ("open", "TextIOWrapper", "decode", "StringIO", "str"):
+                for k in c.keywords:
+                    if k.arg == "errors":
+                        v = k.value
+                        val = v.value if isinstance(v, ast.Constant) else None
+                        if val is None:
+                            nm = v.attr if isinstance(v, ast.Attribute) else (v.id if isinstance(v, ast.Name) else None)
+                            val = defaults.get(nm) if nm else None
+                        if isinstance(val, str) and val in lenient:
+                            col.bad("R-HANDLE", m_.qualname, m_.loc(c), "bytes that cannot be decoded raise",
+                                    f"`{norm_src(c)[:80]}` decodes with errors='{val}': an undecodable byte becomes a replacement character instead of raising, so a file that cannot be "
+                                    f"decoded in the requested encoding comes back as a complete-looking table (with corrupted comments) and the UnicodeDecodeError arm of the reader is dead",
+                                    stmt="h:errors", definite=True)
     # an in-memory text stream built from decoded text does no newline translation at all (io.StringIO(initial) has newline='\n')
     for c in own_nodes(en):
         if isinstance(c, ast.Call) and (dotted(c.func) or "").rsplit(".", 1)[-1] == "StringIO" and c.args:
